@@ -509,7 +509,8 @@ def _gen_lifecycle_program(rng, tier):
         if k == "restart":
             op["form"] = rng.choice(["dict", "string"])
         if k == "add_user_scheme":
-            op["scheme"] = rng.choice(["postgres_md5", "oracle10"])
+            op["scheme"] = rng.choice(["postgres_md5", "oracle10", "msdcc", "msdcc2"])
+            op["as_default"] = rng.random() < 0.5
         if k == "neighbour":
             op["marker"] = rng.choice(["!", "*", "*LK*", "!!", "*NP*"])
             op["via"] = rng.choice(["context", "context", "using"])
